@@ -41,7 +41,8 @@ RULE = ("cbcheck*: hypothesis draws model parameters + an integer seed; refs/cbm
         "before reduction, or one boundary grid moved in the USET only (rbg rows and printed K*RB sums "
         "= those of the moved geometry, stiffness/eigen-based modes and masses still the true ones).  "
         "cbcheck_perm3 / cbcheck_noreorder_split / cbcheck_noreorder_rbnorm / cbcheck_nomodes / cbcheck_bigunits "
-        "/ cbtf_noq_order: input classes on which the code is suspected defective, same oracles, kept apart "
+        "/ cbtf_noq_order: focused generators for the input classes on which defects F34-F39 were found (now "
+        "fixed; the same classes are also drawn by the main parts), same oracles "
         "(3-cycles of boundary grids; reorder=False with a non-contiguous b-set, or with rb_norm and a "
         "b-set not starting at 0; no retained mode; conv to units with mass x length ~1e8; cbtf without "
         "modal DOF and a b-set other than arange(n)).  cbtf: random symmetric "
@@ -506,6 +507,12 @@ def oracle_cbcheck(case, R):
     srow = np.full(n, 1.0 / math.sqrt(mtot))
     srow[bs_d] = np.tile(kcol, nbg)
     ksmax = float(np.abs(out.k / np.outer(srow, srow)).max()) or 1.0
+    # a statically determinate interface without modal DOF has K = 0 up to round-off of the reduction:
+    # the natural scale of that round-off is the stiffness of the unreduced structure
+    sphys = np.tile(kcol, Sn.n)
+    kphys = Sn.km_local()[0]
+    ksmax = max(ksmax, float(np.abs(kphys / np.outer(sphys, sphys)).max()))
+    kmax = max(kmax, float(np.abs(kphys).max()))
     tests = []
     if not fault:
         tests = [("geometry", out.k[B] @ rbg_d, 1.0), ("stiffness", out.k @ rbs, float(np.abs(Nrm).max())),
@@ -654,7 +661,7 @@ def cb_cases(draw, variant="valid"):
         nbg = draw(st.sampled_from([1, 2, 2, 3, 3])) if nbg_max >= 3 else draw(st.integers(1, nbg_max))
     bgrids = draw(st.lists(st.integers(0, ngrids - 1), min_size=nbg, max_size=nbg, unique=True))
     nint = ngrids - nbg
-    nq = draw(st.sampled_from([None, None, 1, 2, 3, 7, 12, 20]))
+    nq = draw(st.sampled_from([None, None, 0, 1, 2, 3, 7, 12, 20]))
     if variant == "nomodes":
         nq = 0
     if variant in ("noreorder_split",):
@@ -675,15 +682,18 @@ def cb_cases(draw, variant="valid"):
     if case["conv"] == "pair":
         case["conv"] = draw(st.sampled_from([[1000.0, 0.001], [0.001, 1000.0], [1 / 25.4, 0.005710147154735817],
                                              [3.0, 2.0], [0.3, 0.5], [0.001, 0.001], [1 / 25.4, 2.0],
-                                             [3.0, 0.5], [1000.0, 0.005710147154735817]]))
+                                             [3.0, 0.5], [1000.0, 0.005710147154735817], [1000.0, 1000.0],
+                                             [100.0, 1000.0]]))
     if variant == "bigunits":
         # mass x length of order 1e8 and more in the new units (e.g. kg -> g with m -> mm)
         case["conv"] = draw(st.sampled_from([[1000.0, 1000.0], [1000.0, 100.0], [100.0, 1000.0]]))
         case["length"] = draw(st.sampled_from([10.0, 50.0]))
-    # boundary order: identity or a swap of two grids (3-cycles: part cbcheck_perm3)
+    # boundary order: identity, a swap of two grids or (3 grids) a 3-cycle
     if nbg >= 2 and draw(st.booleans()):
         a, b = draw(st.lists(st.integers(0, nbg - 1), min_size=2, max_size=2, unique=True))
         case["perm"][a], case["perm"][b] = case["perm"][b], case["perm"][a]
+        if nbg == 3 and draw(st.integers(0, 2)) == 0:
+            case["perm"] = draw(st.sampled_from([[1, 2, 0], [2, 0, 1]]))
     if variant == "perm3":
         case["perm"] = draw(st.sampled_from([[1, 2, 0], [2, 0, 1]]))
     # reference DOF
@@ -701,15 +711,10 @@ def cb_cases(draw, variant="valid"):
         if draw(st.integers(0, 4)) == 0 and variant == "valid":
             case["bmass_small"] = True
             case["nq"] = draw(st.sampled_from([None, None, 5]))
-        # reorder=False: documented for an ascending b-set; (non-contiguous b-set, or rb_norm with a b-set
-        # that does not start at 0: parts cbcheck_noreorder_*)
+        # reorder=False: documented for an ascending b-set (any layout, contiguous or not)
         if draw(st.integers(0, 3)) == 0:
             case["reorder"] = False
             case["perm"] = list(range(nbg))
-            case["layout"] = draw(st.sampled_from(["bfirst", "blast"]))
-            if case["layout"] == "blast" and case["nq"] != 0:
-                case["bref"] = {"kind": "grid", "k": draw(st.integers(0, nbg - 1))}
-                case["rb_norm"] = draw(st.sampled_from([None, False]))
     elif variant == "noreorder_split":
         case.update(reorder=False, perm=list(range(nbg)), layout="split", rb_norm=False,
                     bref={"kind": "grid", "k": draw(st.integers(0, nbg - 1))})
@@ -968,9 +973,8 @@ def tf_cases(draw, noq_order=False):
         else:
             freq.append({"kind": "abs", "f": 10.0 ** draw(_f(-1.5, 2.5))})
     bpos = draw(st.sampled_from(["first", "last", "random"]))
-    if nq == 0:
-        # (no modal DOF and a b-set that is not arange(n): part cbtf_noq_order)
-        bpos = "random" if noq_order else "first"
+    if nq == 0 and noq_order:
+        bpos = "random"
     return dict(seed=draw(st.integers(0, 2 ** 31 - 1)), nb=nb, nq=nq, damp=damp,
                 qform=draw(st.sampled_from(["diag", "full"])), cplx=draw(st.integers(0, 3)) == 0,
                 bpos=bpos, freq=freq,
@@ -1225,8 +1229,7 @@ def oracle_convert(case, R):
     a = (rng.integers(-3, 4, (nb, len(freq))) + 1j * rng.integers(-3, 4, (nb, len(freq)))).astype(complex)
     a[0, 0] += 1.0
     if nq == 0 and not np.array_equal(bseto, np.arange(nb)):
-        R.label("response_skipped:noq_unordered_bset")      # see part cbtf_noq_order
-        return
+        R.label("noq_unordered_bset")
     tf0 = cb.cbtf(M, Bm, K, a, freq, bseto)
     y0 = drm @ tf0.a
     ysc = float(np.abs(y0).max()) or 1.0
@@ -1284,7 +1287,7 @@ PARTS = [
     Part("cbtf", oracle_cbtf, strategy=tf_cases, quick=(2, 300), thorough=(8, 750)),
     Part("cgmass", oracle_cgmass, strategy=cg_cases, quick=(1, 500), thorough=(2, 2500)),
     Part("convert_reorder", oracle_convert, strategy=conv_cases, quick=(2, 150), thorough=(8, 400)),
-    # input classes on which cbcheck is suspected defective (kept apart so they do not mask the rest)
+    # focused generators for the input classes of the fixed findings F34-F39 (also drawn by the parts above)
     Part("cbtf_noq_order", oracle_cbtf, strategy=lambda: tf_cases(noq_order=True), quick=(1, 20), thorough=(1, 80)),
     Part("cbcheck_bigunits", oracle_cbcheck, strategy=lambda: cb_cases("bigunits"), quick=(1, 15), thorough=(1, 60)),
     Part("cbcheck_nomodes", oracle_cbcheck, strategy=lambda: cb_cases("nomodes"), quick=(1, 15), thorough=(1, 60)),
